@@ -129,7 +129,7 @@ impl Prop for C16 {
         "C16"
     }
     fn rule(&self) -> String {
-        "cases = 2-4 prepared statements with 1-12 parameters and a history of 2-30 executions; each execution picks a statement and either rebinds (new-params-bound = 1 with freshly generated types) or reuses (flag = 0, no type block; the first execution after a prepare always binds, as the protocol requires); values are encoded per the types in force in the reference model types[stmt]. Oracle: the shim must see exactly the model's (type code, ValueInner) lists for every execution. Non-trivial = some reuse happens after a rebind of a *different* statement (so a single global type table would be caught), or a reuse follows a rebind to different types of the same statement.".into()
+        "cases = 2-4 prepared statements with 1-12 parameters and a history of 2-30 executions; each execution picks a statement and either rebinds (new-params-bound = 1 with freshly generated types, or with the bound types changed only in some signedness flags or in a single position) or reuses (flag = 0, no type block; the first execution after a prepare always binds, as the protocol requires); values are encoded per the types in force in the reference model types[stmt]. Oracle: the shim must see exactly the model's (type code, ValueInner) lists for every execution. Non-trivial = some reuse happens after a rebind of a *different* statement (so a single global type table would be caught), or a reuse follows a rebind to different types of the same statement.".into()
     }
     fn assumptions(&self) -> Vec<String> {
         vec!["the recording shim iterates all parameters of every execution, as every caller in the repository does (the library parses the type block lazily inside the iterator)".into()]
@@ -164,7 +164,17 @@ impl Prop for C16 {
             let s = g.below(ns as u64) as usize;
             let rebind = types[s].is_none() || g.chance(2, 5);
             if rebind {
-                types[s] = Some((0..stmts[s].1).map(|_| gen_param_type(g)).collect());
+                let fresh: Vec<(u8, bool)> = (0..stmts[s].1).map(|_| gen_param_type(g)).collect();
+                types[s] = Some(match (&types[s], g.below(3)) {
+                    // a rebind that differs only slightly from what is bound: same codes with some
+                    // signedness flags flipped, or a single position changed
+                    (Some(old), 0) => old.iter().map(|&(t, u)| (t, if g.chance(1, 2) { !u } else { u })).collect(),
+                    (Some(old), 1) => {
+                        let k = g.below(old.len() as u64) as usize;
+                        old.iter().enumerate().map(|(i, &tu)| if i == k { fresh[i] } else { tu }).collect()
+                    }
+                    _ => fresh,
+                });
             }
             let params = params_for(g, types[s].as_ref().unwrap());
             ops.push(Op::Exec { stmt: s, params, rebind });
